@@ -71,6 +71,8 @@ type Engine struct {
 	unknown  map[*ssa.Function]*Ctx
 	memo     map[evalKey]*Term
 	inprog   map[evalKey]bool
+	foldPH   map[evalKey]*Term // accumulator placeholders while a loop-carried value is being unrolled
+	foldHits int
 	getters  map[*ssa.Function]string // nil-safe getter -> field name ("" = not a getter)
 	clones   map[*ssa.Function]int    // 1 = clone-shaped, -1 = not
 	elemops  map[*ssa.Function]string
@@ -222,6 +224,11 @@ func (e *Engine) Eval(v ssa.Value, ctx *Ctx) *Term {
 	k := evalKey{v, ctx}
 	if t, ok := e.memo[k]; ok {
 		return t
+	}
+	if ph, ok := e.foldPH[k]; ok {
+		e.foldHits++
+		e.deferCount++ // whatever is computed from the placeholder is a template, not a value
+		return ph
 	}
 	if e.inprog[k] {
 		// cyclic definition that is not a recognised induction variable;
@@ -557,6 +564,9 @@ func (e *Engine) evalPhi(x *ssa.Phi, ctx *Ctx) *Term {
 	if ok && step != nil && init != nil {
 		return e.mk(OpIter, loopID(b.Parent(), b.Index)+"/"+x.Comment, x, e.Eval(init, ctx), step)
 	}
+	if t := e.foldPhi(x, ctx); t != nil {
+		return t
+	}
 	var alts []*Term
 	g := e.GraphOf(b.Parent(), ctx)
 	for i, edge := range x.Edges {
@@ -573,6 +583,103 @@ func (e *Engine) evalPhi(x *ssa.Phi, ctx *Ctx) *Term {
 		return t
 	}
 	return e.mk(OpPhi, "", x, alts...)
+}
+
+// foldPhi unrolls a loop-carried value (an accumulator such as
+// `errs = multierr.Append(errs, check(row))` or `out = append(out, x)`) of a
+// counted loop whose trip count is a constant N in this context (a loop over
+// a literal table): the value after the loop is step(…step(init, 0)…, N-1).
+// The loop must be left only through its header.
+func (e *Engine) foldPhi(x *ssa.Phi, ctx *Ctx) *Term {
+	b := x.Block()
+	if len(x.Edges) != 2 || len(b.Preds) != 2 {
+		return nil
+	}
+	var init, next ssa.Value
+	for i, edge := range x.Edges {
+		if b.Dominates(b.Preds[i]) {
+			next = edge
+		} else {
+			init = edge
+		}
+	}
+	if init == nil || next == nil {
+		return nil
+	}
+	g := e.GraphOf(b.Parent(), ctx)
+	l := g.LoopOf(b.Index)
+	if l == nil || l.Head != b.Index {
+		return nil
+	}
+	for u := range l.Body {
+		if u == l.Head {
+			continue
+		}
+		for _, v := range g.Succ[u] {
+			if !l.Body[v] {
+				return nil // break / return from inside the body
+			}
+		}
+	}
+	// uses of the accumulator inside the loop: only the step itself
+	for _, ref := range *x.Referrers() {
+		rb := ref.Block()
+		if rb != nil && l.Body[rb.Index] && ref != next.(ssa.Instruction) {
+			if _, isPhi := ref.(*ssa.Phi); isPhi && rb == b {
+				continue
+			}
+			return nil
+		}
+	}
+	if _, ok := next.(ssa.Instruction); !ok {
+		return nil
+	}
+	// the induction variable and the constant trip count
+	iff, ok := b.Instrs[len(b.Instrs)-1].(*ssa.If)
+	if !ok || !l.Body[b.Succs[0].Index] {
+		return nil
+	}
+	cond := StripConv(e.Eval(iff.Cond, ctx))
+	if cond.Op != OpBin || cond.Name != "<" {
+		return nil
+	}
+	it := StripConv(cond.Args[0])
+	n, okN := constInt(StripConv(cond.Args[1]))
+	if it.Op != OpIter || len(it.Args) != 2 || !it.Args[0].IsConst("0") || !it.Args[1].IsConst("1") || !okN || n < 0 || n > 32 {
+		return nil
+	}
+	k := evalKey{x, ctx}
+	if _, busy := e.foldPH[k]; busy {
+		return nil
+	}
+	ph := &Term{Op: OpUnknown, Name: "acc:" + loopID(b.Parent(), b.Index) + "/" + x.Name(), Val: x, Typ: x.Type()}
+	if e.foldPH == nil {
+		e.foldPH = map[evalKey]*Term{}
+	}
+	hits0, dc0 := e.foldHits, e.deferCount
+	e.foldPH[k] = ph
+	tmpl := e.Eval(next, ctx)
+	delete(e.foldPH, k)
+	mine := e.foldHits - hits0
+	if e.deferCount-dc0 >= mine {
+		e.deferCount -= mine // the placeholder is resolved below: nothing provisional remains from it
+	}
+	acc := e.Eval(init, ctx)
+	phs, its := ph.String(), it.String()
+	for i := int64(0); i < n; i++ {
+		kc := C(fmt.Sprint(i))
+		cur := acc
+		acc = Subst(tmpl, func(t *Term) *Term {
+			switch {
+			case t.Op == OpUnknown && t.String() == phs:
+				return cur
+			case t.Op == OpIter && t.String() == its:
+				return kc
+			}
+			return nil
+		})
+	}
+	return acc
 }
 
 // phiAsIte recognises a two-armed phi whose arms are selected by the If that
@@ -972,22 +1079,34 @@ func isBuiltin(c *ssa.Call, name string) bool {
 	return ok && b.Name() == name
 }
 
-// elemOp recognises  func f(a, b []byte) []byte { d := make([]byte, len(a)); for i := 0; i < len(a); i++ { d[i] = a[i] OP b[i] }; return d }
-// and returns OP.
+// elemOp recognises a function f(a, b []T) []T that returns a fresh slice d
+// with d[i] = a[i] OP b[i] for every index of one counted loop (index loop or
+// range loop over either operand, any local naming), and returns OP. Nothing
+// else is stored and nothing but len is called.
 func (e *Engine) elemOp(fn *ssa.Function) string {
 	if s, ok := e.elemops[fn]; ok {
 		return s
 	}
 	e.elemops[fn] = ""
-	if len(fn.Params) != 2 || fn.Signature.Results().Len() != 1 || len(fn.Blocks) != 4 {
+	if len(fn.Params) != 2 || fn.Signature.Results().Len() != 1 || len(fn.Blocks) == 0 {
 		return ""
+	}
+	for _, p := range fn.Params {
+		if _, ok := p.Type().Underlying().(*types.Slice); !ok {
+			return ""
+		}
 	}
 	a, b := fn.Params[0], fn.Params[1]
 	var mk *ssa.MakeSlice
-	var ret *ssa.Return
 	var store *ssa.Store
-	nStores, nCalls := 0, 0
+	nRet, headers := 0, 0
 	for _, blk := range fn.Blocks {
+		for _, p := range blk.Preds {
+			if blk.Dominates(p) {
+				headers++
+				break
+			}
+		}
 		for _, in := range blk.Instrs {
 			switch x := in.(type) {
 			case *ssa.MakeSlice:
@@ -996,80 +1115,90 @@ func (e *Engine) elemOp(fn *ssa.Function) string {
 				}
 				mk = x
 			case *ssa.Return:
-				if ret != nil {
+				nRet++
+				if len(x.Results) != 1 {
 					return ""
 				}
-				ret = x
+				if x.Results[0] != ssa.Value(mk) || mk == nil {
+					return ""
+				}
 			case *ssa.Store:
-				store = x
-				nStores++
-			case *ssa.Call:
-				if !isBuiltin(x, "len") || x.Call.Args[0] != a {
+				if store != nil {
 					return ""
 				}
-				nCalls++
+				store = x
+			case *ssa.Call:
+				if !isBuiltin(x, "len") {
+					return ""
+				}
+			case *ssa.Go, *ssa.Defer, *ssa.MapUpdate, *ssa.Send, *ssa.Panic:
+				return ""
 			}
 		}
 	}
-	if mk == nil || ret == nil || nStores != 1 || len(ret.Results) != 1 || ret.Results[0] != mk {
+	if mk == nil || store == nil || nRet != 1 || headers != 1 {
 		return ""
 	}
-	if l, ok := mk.Len.(*ssa.Call); !ok || !isBuiltin(l, "len") || l.Call.Args[0] != a {
+	if l, ok := mk.Len.(*ssa.Call); !ok || !isBuiltin(l, "len") || (l.Call.Args[0] != ssa.Value(a) && l.Call.Args[0] != ssa.Value(b)) {
 		return ""
 	}
 	ia, ok := store.Addr.(*ssa.IndexAddr)
-	if !ok || ia.X != mk {
+	if !ok || ia.X != ssa.Value(mk) {
 		return ""
 	}
-	phi, ok := ia.Index.(*ssa.Phi)
-	if !ok || len(phi.Edges) != 2 {
+	ctx := &Ctx{Fn: fn} // parameters stay symbolic
+	idx := StripConv(e.Eval(ia.Index, ctx))
+	if idx.Op != OpIter || len(idx.Args) != 2 || !idx.Args[0].IsConst("0") || !idx.Args[1].IsConst("1") {
 		return ""
 	}
-	// phi = [0, phi+1]
-	c0, ok := phi.Edges[0].(*ssa.Const)
-	if !ok || !isZeroConst(c0) {
+	val := StripConv(e.Eval(store.Val, ctx))
+	if val.Op != OpBin || len(val.Args) != 2 {
 		return ""
 	}
-	inc, ok := phi.Edges[1].(*ssa.BinOp)
-	if !ok || inc.Op != token.ADD || inc.X != phi {
+	pa := StripConv(e.Eval(a, ctx))
+	pb := StripConv(e.Eval(b, ctx))
+	elemOf := func(t, of *Term) bool {
+		t = StripConv(t)
+		return t.Op == OpIndex && Eq(StripConv(t.Args[0]), of) && Eq(StripConv(t.Args[1]), idx)
+	}
+	x, y := val.Args[0], val.Args[1]
+	inOrder := elemOf(x, pa) && elemOf(y, pb)
+	swapped := elemOf(x, pb) && elemOf(y, pa)
+	if !(inOrder || (swapped && commutative[val.Name])) {
 		return ""
 	}
-	if c1, ok := inc.Y.(*ssa.Const); !ok || c1.Value == nil || c1.Value.ExactString() != "1" {
+	// the loop runs over every index of an operand (or of the result)
+	hdr := store.Block()
+	for hdr != nil && !isHeaderBlock(hdr) {
+		hdr = hdr.Idom()
+	}
+	if hdr == nil {
 		return ""
 	}
-	// loop condition phi < len(a)
-	hb := phi.Block()
-	iff, ok := hb.Instrs[len(hb.Instrs)-1].(*ssa.If)
+	iff, ok := hdr.Instrs[len(hdr.Instrs)-1].(*ssa.If)
 	if !ok {
 		return ""
 	}
-	cond, ok := iff.Cond.(*ssa.BinOp)
-	if !ok || cond.Op != token.LSS || cond.X != phi {
+	cond := StripConv(e.Eval(iff.Cond, ctx))
+	if cond.Op != OpBin || cond.Name != "<" || !Eq(StripConv(cond.Args[0]), idx) {
 		return ""
 	}
-	if l, ok := cond.Y.(*ssa.Call); !ok || !isBuiltin(l, "len") || l.Call.Args[0] != a {
+	bound := StripConv(cond.Args[1])
+	if bound.Op != OpLen || !(Eq(StripConv(bound.Args[0]), pa) || Eq(StripConv(bound.Args[0]), pb)) {
+		// len(d) with d = make(len(a)) normalises to len(a)
 		return ""
 	}
-	if hb.Succs[0] != store.Block() {
-		return ""
-	}
-	bo, ok := store.Val.(*ssa.BinOp)
-	if !ok {
-		return ""
-	}
-	elem := func(v ssa.Value, of ssa.Value) bool {
-		ld, ok := v.(*ssa.UnOp)
-		if !ok || ld.Op != token.MUL {
-			return false
-		}
-		x, ok := ld.X.(*ssa.IndexAddr)
-		return ok && x.X == of && x.Index == phi
-	}
-	if !(elem(bo.X, a) && elem(bo.Y, b)) {
-		return ""
-	}
-	e.elemops[fn] = bo.Op.String()
+	e.elemops[fn] = val.Name
 	return e.elemops[fn]
+}
+
+func isHeaderBlock(b *ssa.BasicBlock) bool {
+	for _, p := range b.Preds {
+		if b.Dominates(p) {
+			return true
+		}
+	}
+	return false
 }
 
 // ElemOp exposes elemOp.
